@@ -319,6 +319,7 @@ const tmplTestFile = `package {{PKG}}
 
 import (
 	"fmt"
+	"runtime"
 	"strings"
 	"sync"
 	"testing"
@@ -388,7 +389,40 @@ func call_{{SFX}}(t testing.TB, c vCall, idx int) {
 	if strings.HasPrefix(c.Via, "deep-nontest-") {
 		fmt.Sscanf(c.Via, "deep-nontest-%d", &deep)
 	}
+	// bare deferred calls (defer cfg.MatchSnapshot(t, v), no wrapping closure) that run while
+	// the goroutine unwinds: frames of package runtime lie between the call and the test code
+	deferred := func(unwind func()) {
+		cfg := vconfig(c)
+		switch c.API {
+		case "snap":
+			defer cfg.MatchSnapshot(rec, c.Val)
+		case "json":
+			defer cfg.MatchJSON(rec, vinput(c))
+		case "yaml":
+			defer cfg.MatchYAML(rec, vinput(c))
+		case "ssnap":
+			defer cfg.MatchStandaloneSnapshot(rec, c.Val)
+		default:
+			defer cfg.MatchStandaloneJSON(rec, vinput(c))
+		}
+		unwind()
+	}
 	switch c.Via {
+	case "defer-panic":
+		func() {
+			defer func() { recover() }()
+			deferred(func() { panic("unwinding on purpose") })
+		}()
+	case "defer-goexit":
+		var wg sync.WaitGroup
+		wg.Add(1)
+		go func() {
+			defer wg.Done()
+			deferred(runtime.Goexit)
+		}()
+		wg.Wait()
+	case "defer-return":
+		deferred(func() {})
 	case "direct-nontest":
 		direct()
 	case "direct-nontest-helper":
